@@ -333,6 +333,8 @@ class XTyper:
                 return ("Graph", self.fresh("int"))
             if q == "random.shuffle":
                 return ("Const", None)      # in-place permutation: element set and bijectivity unchanged
+            if q == "itertools.count" and (not e.args or (isinstance(e.args[0], ast.Constant) and e.args[0].value == 0)) and len(e.args) <= 1:
+                return ("Seq", "POS", "POS", True, "inf")     # 0, 1, 2, ...: as long as whatever it is zipped with
             return U(q)
         if isinstance(f, ast.Name) and (r is None or r[0] == "builtin") and f.id not in env:
             name = f.id
@@ -343,14 +345,23 @@ class XTyper:
                         comps, bijc = src[2][1], src[2][2]
                         return ("Tuple", [("Seq", "POS", c, bool(b), src[4]) for c, b in zip(comps, bijc)])
                     return U("zip(*)")
+                if len(args) == 2 and args[0][0] == "Seq" and args[1][0] == "Seq" and "inf" in (args[0][4], args[1][4]) and args[0][4] != args[1][4]:
+                    # zip(xs, count()) numbers xs by position: the same pairs as enumerate(xs), the other way round
+                    a, b = args
+                    if b[4] == "inf":
+                        return ("Pairs", a[2], a[1], a[3], a[4])
+                    return ("Pairs", b[1], b[2], b[3], b[4])
                 if len(args) == 2 and args[0][0] == "Seq" and args[1][0] == "Seq":
                     a, b = args
                     if a[1] != b[1] and "POS" not in (a[1], b[1]):
                         if self.strict:
                             raise XViolation(e, f"zip pairs a sequence indexed by {fmt_space(a[1])} with one indexed by {fmt_space(b[1])}")
                         self.notes.append("index-space mismatch in zip (reported by R-BLISS)")
-                    same_len = a[4] is not None and a[4] == b[4]
-                    return ("Pairs", a[2], b[2], bool(a[3] and b[3] and same_len), a[4] if same_len else None)
+                    same_len = a[4] is not None and (a[4] == b[4] or b[4] == "inf")
+                    if a[4] == "inf" and b[4] is not None:
+                        same_len = True
+                    ln = (a[4] if a[4] != "inf" else b[4]) if same_len else None
+                    return ("Pairs", a[2], b[2], bool(a[3] and b[3] and same_len), ln)
                 if len(args) == 2 and args[0][0] == "Graph" and args[1][0] == "Seq":
                     g = args[0]
                     return self.call_expr_zip_graph(e, g, args[1])
@@ -546,38 +557,57 @@ def r_bij(ctx) -> RuleResult:
     sites_ = list(ext_calls(ctx, fis, names={"networkx.relabel_nodes"}))
     if not sites_:
         raise AnalysisError("R-BIJ: no relabel_nodes site (anchor vanished)")
+    pub = {f.fq for f in fis}
+
+    def type_from(fn_, node):
+        """[(graph type, map type)] of the relabel call `node` when fn_ is typed with its first parameter as a graph"""
+        T = XTyper(ctx, conv, strict=False)
+        params = params_of(fn_.node)
+        T.call(fn_, [("Graph", "m")] + [U("param")] * (len(params) - 1))
+        return [(g, m) for f, n, g, m in T.relabels if n is node]
+
+    def good(g, m):
+        return m[0] == "Map" and m[3] and m[4] is not None and isinstance(m[1], tuple) and m[1][0] in ("NX", "IG", "CAN") and m[4] == ("nodes", m[1][1]) \
+            and (g[0] != "Graph" or g[1] == m[1][1] or not str(g[1]).startswith(("m", "g")))
     for cs in sites_:
         fi = cs.caller
-        T = XTyper(ctx, conv, strict=False)
-        # type the caller with its first parameter as a graph
-        params = params_of(fi.node)
-        args = [("Graph", "m")] + [U("param")] * (len(params) - 1)
+        node = cs.node
+        contexts = []        # (function typed from, g, m)
         try:
-            T.call(fi, args)
+            mine = type_from(fi, node)
+            if not mine:
+                raise AnalysisError(f"R-BIJ: relabel at {fi.loc(node)} not reached by the typing pass")
+            g, m = mine[0]
+            if not good(g, m) and m[0] != "Map" and len(params_of(fi.node)) > 1:
+                # the map is put together from parameters: type the function from each of its callers instead
+                callers = [c for c in ctx.cg.callers_of(fi.fq) if c.caller.fq in pub and c.caller.fq != fi.fq]
+                for c in callers:
+                    for g2, m2 in type_from(c.caller, node):
+                        contexts.append((c.caller, g2, m2))
+            if not contexts:
+                contexts = [(fi, g, m)]
         except XViolation as v:
             res.inst(fi.fq, short(cs.node), "fail", detail=v.msg)
             res.fail(Finding("R-BIJ", fi.module.rel, fi.qualname, norm(v.node), v.msg, line=getattr(v.node, "lineno", None)))
             continue
-        mine = [(f, n, g, m) for f, n, g, m in T.relabels if n is cs.node]
-        if not mine:
-            raise AnalysisError(f"R-BIJ: relabel at {fi.loc(cs.node)} not reached by the typing pass")
-        _, node, g, m = mine[0]
-        if m[0] == "Map" and m[3] and m[4] is not None and isinstance(m[1], tuple) and m[1][0] in ("NX", "IG", "CAN") and m[4] == ("nodes", m[1][1]) \
-                and (g[0] != "Graph" or g[1] == m[1][1] or not str(g[1]).startswith(("m", "g"))):
-            res.inst(fi.fq, short(node), "ok", detail=f"{fmt(m)}: keys enumerate every node once, values are pairwise distinct, same length")
-            continue
-        # incremental construction (final labels): dedicated proof
-        ok, why = _incremental_bijection(ctx, fi, cs.node)
-        if ok is None:
-            if m[0] == "Map" and not m[3]:
-                res.inst(fi.fq, short(node), "fail", detail=f"{fmt(m)}")
-                res.fail(Finding("R-BIJ", fi.module.rel, fi.qualname, norm(node),
-                                 f"mapping {fmt(m)} is not provably one-to-one on all nodes (keys or values may repeat or be missing): atoms could be merged or left unnamed", line=node.lineno))
+        for cfi, g, m in contexts:
+            where = fi.fq if cfi is fi else f"{fi.fq} (called from {cfi.qualname})"
+            if good(g, m):
+                res.inst(where, short(node), "ok", detail=f"{fmt(m)}: keys enumerate every node once, values are pairwise distinct, same length")
                 continue
-            raise AnalysisError(f"R-BIJ: construction of the mapping at {fi.loc(node)} not recognised ({fmt(m)}; {why})")
-        res.inst(fi.fq, short(node), "ok" if ok else "fail", detail=why)
-        if not ok:
-            res.fail(Finding("R-BIJ", fi.module.rel, fi.qualname, norm(node), why, line=node.lineno))
+            # incremental construction (final labels): dedicated proof
+            ok, why = _incremental_bijection(ctx, fi, cs.node)
+            if ok is None:
+                if m[0] == "Map" and not m[3]:
+                    res.inst(where, short(node), "fail", detail=f"{fmt(m)}")
+                    res.fail(Finding("R-BIJ", fi.module.rel, fi.qualname, norm(node),
+                                     f"mapping {fmt(m)} is not provably one-to-one on all nodes (keys or values may repeat or be missing): atoms could be merged or left unnamed"
+                                     + ("" if cfi is fi else f" (as called from {cfi.qualname})"), line=node.lineno))
+                    continue
+                raise AnalysisError(f"R-BIJ: construction of the mapping at {fi.loc(node)} not recognised ({fmt(m)}; {why})")
+            res.inst(where, short(node), "ok" if ok else "fail", detail=why)
+            if not ok:
+                res.fail(Finding("R-BIJ", fi.module.rel, fi.qualname, norm(node), why, line=node.lineno))
     res.counts = {"relabel_sites": len(sites_)}
     return res
 
